@@ -42,6 +42,30 @@ def macs_of(ref):
             for d in w[1:]:
                 k *= d
             total += n * k if op["opcode"] != "DEPTHWISE_CONV_2D" else n * w[1] * w[2]
+        else:
+            # every other operator costs the interpreter at least one step per output element (per window element for pools,
+            # per kernel element and input channel for a transposed convolution, per input element for a mean)
+            o = ref.tens(op["outputs"][0])["shape"] if op["outputs"] else []
+            n = 1
+            for d in o:
+                n *= d
+            k = 1
+            opts = op.get("options") or {}
+            if op["opcode"] in ("MAX_POOL_2D", "AVERAGE_POOL_2D"):
+                k = int(opts.get("FilterHeight", 1)) * int(opts.get("FilterWidth", 1))
+            elif op["opcode"] == "TRANSPOSE_CONV":
+                w = ref.tens(op["inputs"][1])["shape"]
+                for d in w[1:]:
+                    k *= d
+            elif op["opcode"] == "MEAN":
+                i = ref.tens(op["inputs"][0])["shape"]
+                k = 1
+                for d in i:
+                    k *= d
+                k = max(1, k // max(1, n))
+            elif op["opcode"] in ("RESIZE_BILINEAR", "RESIZE_NEAREST_NEIGHBOR"):
+                k = 4
+            total += n * k
     return total
 
 
